@@ -5,7 +5,7 @@ from common import Report, log
 
 MANIFEST = dict(
     technique='Coq proofs over ALL schedules and any number of goroutines (metrics update protocol as a small-step program regenerated from the source each run; goroutines over fresh pools; lockset discipline over the regenerated access table of every package-level variable) + race-detector build and barrier-released rounds on the implementation',
-    text="Theorems: metrics_exact (every counter equals its initial value plus the sum of every call's adds, the largest/smallest query size are the true maximum/minimum, for every interleaving of the individual atomic operations of any number of concurrent Record* calls; proved generically for add-only locations and for the compare-and-swap loop, instantiated on the programs translated from the current source of pkg/metrics and pkg/sql/monitor, shape check discharged by complete evaluation); *_refuted (the load-compare-store form loses the extreme: concrete two-goroutine schedule); results_sequential (goroutines that share only pools of observationally fresh objects return what they return alone, any schedule); footprint_race_free (every access to package-level state that is written outside init is a pool/once/atomic/sync.Map operation or holds the variable's mutex in a mode excluding the conflicting access: lockset discipline on the access table regenerated from go/ssa). Implementation: translated programs are replayed sequentially against GetStats; barrier-released single-record rounds compare the totals with the true values after quiescence; N in {2, cores, 4*cores} goroutines run seeded mixes of tokenize/parse/format/extract/scan/lint/suggest/span/config/metrics-read under the race detector, every result compared with the sequential answer.",
+    text="Theorems: metrics_exact (every counter equals its initial value plus the sum of every call's adds, the largest/smallest query size are the true maximum/minimum, for every interleaving of the individual atomic operations of any number of concurrent Record* calls; proved generically for add-only locations and for the class of compare-and-swap retry loops (is_rmw_loop: a decidable abstract execution of the translated control-flow graph — any loop/break/continue/flag/helper layout, not one literal instruction list), instantiated on the programs translated from the current source of pkg/metrics and pkg/sql/monitor (metrics state found by role, same-package helpers inlined, short-circuit conditions as control flow), shape check discharged by complete evaluation); *_refuted (load-compare-store and a single swap attempt lose the extreme: concrete two-goroutine schedules); results_sequential (goroutines that share only pools of observationally fresh objects return what they return alone, any schedule); footprint_race_free (every access to package-level state that is written outside init is a pool/once/atomic/sync.Map operation or holds the variable's mutex in a mode excluding the conflicting access: lockset discipline on the access table regenerated from go/ssa). Implementation: translated programs are replayed sequentially against GetStats; barrier-released single-record rounds compare the totals with the true values after quiescence; N in {2, cores, 4*cores} goroutines run seeded mixes of tokenize/parse/format/extract/scan/lint/suggest/span/config/metrics-read under the race detector, every result compared with the sequential answer.",
     note=common.BASE_NOTE + "sync/atomic operations are taken as sequentially consistent single steps and a critical section under the struct's mutex as one atomic step; the access table is complete for accesses reachable through package-level variables by field/index/pointer paths and direct calls (dynamic calls listed in evidence); 'no data race under the Go memory model' beyond that footprint rests on the race detector over the explored schedules, which is supporting evidence, not proof.",
     design='6/C10')
 
